@@ -27,6 +27,11 @@ func runE1(spec RunSpec, ch *Choices) *RunResult {
 	if x.prog.Cfg.LockYields {
 		classes |= verifsim.ClassLock
 	}
+	// (not in the enumeration modes: every extra step multiplies the number of variants)
+	stmtYields := spec.Prop != "C05" && spec.Prop != "C12" && ch.Bool("cfg", 0.06)
+	if stmtYields {
+		classes |= verifsim.ClassStmt // a scheduling point before every statement of the core packages
+	}
 	x.rt = verifsim.New(classes)
 	x.rt.SelectChoice = func(t *verifsim.Task, k int, n uint32) uint32 {
 		return uint32(ch.Draw("sel:"+t.Name, int(n), nil))
@@ -37,6 +42,10 @@ func runE1(spec RunSpec, ch *Choices) *RunResult {
 	budget := spec.Budget
 	if budget == 0 {
 		budget = 20000
+	}
+	if stmtYields {
+		budget *= 6
+		res.probe("statement_level_yields")
 	}
 	x.d = NewDirector(x.rt, ch, budget)
 	x.d.Verbose = spec.Verbose
